@@ -663,6 +663,69 @@ func init() {
 		Outside:  "3..4 concurrent closers; memory-model effects below happens-before; the receiver goroutine of the real TunnelSocket (C16)",
 		Assume:   []string{"in-memory socket whose Close is counted", "sync.Once/WaitGroup/Mutex are engine primitives"},
 	})
+
+	c16 := func(thorough bool) []Inst {
+		var out []Inst
+		maxF, cuts := int64(2), int64(2)
+		if thorough {
+			maxF, cuts = 3, 3
+		}
+		for f := int64(1); f <= maxF; f++ {
+			for k0 := int64(0); k0 < 4; k0++ {
+				c := cuts
+				if f == 3 {
+					c = 2
+				}
+				out = append(out, Inst{Pkg: "knxnet", Fn: "HarnessC16TCP", Args: []int64{f, k0, c, 0}, Note: "every placement of up to c cuts"},
+					Inst{Pkg: "knxnet", Fn: "HarnessC16TCP", Args: []int64{f, k0, 0, 1}, Note: "1-byte dribble"},
+					Inst{Pkg: "knxnet", Fn: "HarnessC16TCP", Args: []int64{f, k0, 0, 0}, Note: "fully coalesced"})
+			}
+		}
+		out = append(out, Inst{Pkg: "knxnet", Fn: "HarnessC16TCPBad", Args: []int64{0, 1}}, Inst{Pkg: "knxnet", Fn: "HarnessC16TCPBad", Args: []int64{1, 1}},
+			Inst{Pkg: "knxnet", Fn: "HarnessC16TCPBad", Args: []int64{0, 0}}, Inst{Pkg: "knxnet", Fn: "HarnessC16TCPBad", Args: []int64{1, 0}})
+		for k := int64(1); k <= maxF; k++ {
+			for k0 := int64(0); k0 < 4; k0++ {
+				out = append(out, Inst{Pkg: "knxnet", Fn: "HarnessC16UDP", Args: []int64{k, k0, 0}})
+			}
+		}
+		for _, L := range []int64{1, 6, 8, 10, 12} {
+			out = append(out, Inst{Pkg: "knxnet", Fn: "HarnessC16UDP", Args: []int64{1, 3, L}, Note: "arbitrary datagram first, buffer reused"})
+		}
+		for tcp := int64(0); tcp < 2; tcp++ {
+			for loc := int64(0); loc < 2; loc++ {
+				for nw := int64(0); nw < 3; nw++ {
+					out = append(out, Inst{Pkg: "knx", Fn: "HarnessC16HostInfo", Args: []int64{tcp, loc, nw}})
+				}
+			}
+		}
+		return out
+	}
+	reg(&Spec{
+		ID:       "C16",
+		NoNative: true,
+		Quick:    func(l *loaded) []Inst { return c16(false) },
+		Thorough: func(l *loaded) []Inst { return c16(true) },
+		Covers:   []string{"C16.tcp.end", "C16.tcpbad.end", "C16.udp.end", "C16.hostinfo.nat", "C16.hostinfo.local"},
+		Bounds:   "real serveTCPSocket (with the real bufio.Reader and io.ReadFull) on streams of 1..2 (thorough 3) concatenated frames of four service types with symbolic field values, the Read stub returning: every placement of up to 2 (3) cut points, 1-byte dribble, or everything at once, then EOF; a frame with arbitrary body followed by a good one; a header announcing total length 0..5 (symbolic); real serveUDPSocket on 1..2 (3) datagrams, optionally preceded by an arbitrary symbolic datagram of 1..12 bytes into the reused 1024-byte buffer; Tunnel.hostInfo through requestConn for UDP/TCP/other sockets with and without SendLocalAddress",
+		Outside:  "50-frame streams (the receiver keeps no state between frames other than bufio's buffer); more than 3 cut points at once; concurrent senders (Send builds a private buffer and performs one Write: C15); Close racing with a blocked 'inbound <-' (the receiver goroutine then stays blocked until the application reads: not decided here); kernel sockets, Dial*/Listen*, address parsing inside HostInfoFromAddress (redirected to an environment function)",
+		Assume:   []string{"(*net.TCPConn).Read / (*net.UDPConn).ReadFromUDP are engine stubs obeying the io.Reader contract with nondeterministic segment sizes"},
+	})
+	c20 := func(maxK int64) []Inst {
+		var out []Inst
+		for k := int64(0); k <= maxK; k++ {
+			out = append(out, Inst{Pkg: "knx", Fn: "HarnessC20Describe", Args: []int64{k}}, Inst{Pkg: "knx", Fn: "HarnessC20Discover", Args: []int64{k}})
+		}
+		return out
+	}
+	reg(&Spec{
+		ID:       "C20",
+		NoNative: true,
+		Quick:    func(l *loaded) []Inst { return c20(3) },
+		Thorough: func(l *loaded) []Inst { return c20(5) },
+		Covers:   []string{"C20.describe.answered", "C20.describe.timeout", "C20.discover.end"},
+		Bounds:   "real DescribeTunnel / DiscoverOnInterface (with the real TunnelSocket/RouterSocket methods) against an environment that offers 0..3 (thorough 5) frames, each a description response, a search response or another frame, each after a delay of 0, 2 or 4 s on the virtual clock (timeout 5 s), every interleaving of offer and timeout; one request written, carrying the host info of the socket's local address; socket closed exactly once",
+		Outside:  "real sockets (Dial/Listen are redirected to environment functions), origin filtering by serveUDPSocket, malformed frames (dropped by the receiver: C01/C16), scheduling slack (virtual time advances only when no goroutine can move)",
+	})
 }
 
 func dptWireLen(m int64) int64 {
